@@ -63,6 +63,11 @@ CHECKS = {
             'with reaction policies that move or place orders after a partial fill; the observed sequence of Order.execute calls in the minute must be a monotone walk along the path, reaction orders '
             'only after their creation point, and nothing the path reached earlier may still be waiting when a later order fills.',
             'Normal simulator only (the property is stated for it). 225 probe candles, up to 66 programs, both sides; ties may fill in any order.', 'DESIGN.md 3/C08'),
+    'C12': ('session', 'exhaustive differential enumeration: every session of the space is run in both simulators (research.backtest fast_mode False/True) and the traces compared',
+            'All minute words / block words (at most one tick per minute) x entry styles (market, limit, stop; long and short) with exits spaced timeframe+3 ticks x trading timeframes 1m..1h x data routes '
+            '(none, larger, smaller timeframe) x spot/futures are executed twice; whenever the normal run satisfies the precondition (<=1 resting fill per trading-candle span, no liquidation) the executed '
+            'orders with fill minute, the closed trades and the final balances must be identical.',
+            'Session lengths are multiples of every route timeframe. Sessions failing the precondition are counted as ambiguous, not compared.', 'DESIGN.md 3/C12'),
 }
 
 NOT_APPLICABLE = {}
